@@ -182,7 +182,7 @@ theorem run_indep (hf : ∀ s op m, PairOk s m → SpliceOk s.1.triple s.2.tripl
     have p1 := r1.1
     have p2 := (hf s op m2 h2 hc.spliceOk).1
     rw [← e.2.1] at p2
-    have ih := run_indep hf hi ops (f s op m1).2.1 (f s op m1).2.2 (f s op m2).2.2 p1 p2 (hc.tail r1.2.1) e.2.2
+    have ih := run_indep hf hi ops (f s op m1).2.1 (f s op m1).2.2 (f s op m2).2.2 p1 p2 (hc.tail r1.2.1.1) e.2.2
     simp only [runWith]
     rw [← e.2.1, e.1]
     exact ⟨by rw [ih.1], ih.2.1, ih.2.2⟩
